@@ -302,8 +302,85 @@ def interval_txt(p: Problem) -> str:
 # ---------------------------------------------------------------------------------------------
 # checks (rules maps as in nbk)
 # ---------------------------------------------------------------------------------------------
+_QUIET_OPTIONS = {"solver", "verbose", "msg_lev", "show_progress", "LPX_K_MSGLEV", "logLevel", "log_level", "warm_start"}
+_STOPPING_OPTIONS = {"mip_gap", "mipgap", "mip_rel_gap", "tm_lim", "time_limit", "timeLimit", "maximumSeconds", "allowableGap", "allowableFractionGap", "ratioGap",
+                     "maximumNodes", "maxNodes", "max_iters", "max_iter", "maxiters", "maximumSolutions", "maxSolutions", "tol_obj", "tol_int", "optimality_gap", "feastol",
+                     "abstol", "reltol", "bb_tol", "pp_tech"}
+_SOLVER_MODULES = ("cvxopt", "glpk", "cylp", "cbc", "cvxpy.settings", "cp.settings", "scipy.optimize")
+
+
+def check_solver_options(ctx: Ctx, F: IlpFacts, rule: str):
+    """'the solver returns an optimum of the posed program' is the standing assumption of every rule on the formulation.  It is the package's
+    to keep: a stopping criterion handed to a back-end (an optimality gap, a time / node limit), in the solve call or through the solver
+    library's process-wide option table - set anywhere in the package, module level included -, makes that back-end return a feasible point
+    that need not be optimal, and makes the two back-ends differ.  Verbosity options are harmless; unknown ones are not decided."""
+    if ("solver-options", rule) in ctx.notes.setdefault("records_checked", set()):
+        return
+    ctx.notes["records_checked"].add(("solver-options", rule))
+    M = ctx.model
+    f = F.f
+    n = 0
+    for c in walk_no_nested(f.node):
+        if isinstance(c, ast.Call) and isinstance(c.func, ast.Attribute) and c.func.attr == "solve":
+            for k in c.keywords:
+                if k.arg is None:
+                    ctx.undecided(rule, f, c, "solve(**options): the options handed to the back-end are not visible (not a verdict)", key="solver-options:call")
+                elif k.arg in _STOPPING_OPTIONS:
+                    ctx.bad(rule, f, c, f"`{k.arg}={norm(k.value)}` is a stopping criterion: this back-end may return a feasible alignment that is not of minimal disorder, "
+                            f"and the other back-end (without it) a different one", key=f"solver-options:{k.arg}")
+                elif k.arg not in _QUIET_OPTIONS:
+                    ctx.undecided(rule, f, c, f"solve option `{k.arg}` is not in the table of options known to leave the optimum alone (not a verdict)", key=f"solver-options:{k.arg}")
+            n += 1
+    # process-wide option tables of the solver libraries, written anywhere in the package
+    for m in M.modules.values():
+        solverish = {a for a, full in m.aliases.items() if any(s in full.lower() for s in ("cvxopt", "glpk", "cylp", "cbc"))}
+        for node in ast.walk(m.tree):
+            for al in (node.names if isinstance(node, (ast.Import, ast.ImportFrom)) else []):
+                full = ((node.module + ".") if isinstance(node, ast.ImportFrom) and node.module else "") + al.name
+                if any(s in full.lower() for s in ("cvxopt", "glpk", "cylp", "cbc")):
+                    solverish.add((al.asname or al.name).split(".")[0])
+        if not solverish:
+            continue
+        for node in ast.walk(m.tree):
+            key = None
+            tgt = None
+            if isinstance(node, (ast.Assign, ast.AugAssign)):
+                for t in (node.targets if isinstance(node, ast.Assign) else [node.target]):
+                    if isinstance(t, ast.Subscript) and isinstance(t.value, ast.Attribute) and t.value.attr == "options":
+                        tgt, key = t.value.value, (t.slice.value if isinstance(t.slice, ast.Constant) else None)
+                    elif isinstance(t, ast.Attribute) and t.attr == "options":
+                        tgt, key = t.value, "*"
+            elif isinstance(node, ast.Call) and isinstance(node.func, ast.Attribute) and node.func.attr in ("update", "setdefault", "__setitem__") and \
+                    isinstance(node.func.value, ast.Attribute) and node.func.value.attr == "options":
+                tgt, key = node.func.value.value, "*"
+                if node.func.attr != "update" and node.args and isinstance(node.args[0], ast.Constant):
+                    key = node.args[0].value
+                elif node.func.attr == "update" and node.args and isinstance(node.args[0], ast.Dict) and all(isinstance(k, ast.Constant) for k in node.args[0].keys):
+                    ks = [k.value for k in node.args[0].keys] + [k.arg for k in node.keywords]
+                    key = next((k for k in ks if k in _STOPPING_OPTIONS), next((k for k in ks if k not in _QUIET_OPTIONS), ks[0] if ks else "*"))
+            if tgt is None:
+                continue
+            base = norm(tgt).split(".")[0]
+            if base not in solverish:
+                continue
+            n += 1
+            where = f"{m.relpath}:{getattr(node, 'lineno', 0)}"
+            if key in _STOPPING_OPTIONS:
+                ctx.bad(rule, None, None, f"{where}: `{norm(node)[:90]}` sets the stopping criterion `{key}` in the solver library's process-wide options: every later solve "
+                        f"of that back-end may stop at a feasible alignment that is not of minimal disorder, while the other back-end solves to optimality",
+                        construct=f"{norm(tgt)}.options[{key!r}]", key=f"solver-options:global:{key}")
+            elif key in _QUIET_OPTIONS:
+                ctx.ok(rule, None, None, f"{where}: solver option `{key}` only changes what the back-end prints", construct=f"{norm(tgt)}.options[{key!r}]", key=f"solver-options:global:{key}")
+            else:
+                ctx.undecided(rule, None, None, f"{where}: `{norm(node)[:90]}` writes the solver library's process-wide options with a key the analysis does not know "
+                              f"(not a verdict)", construct=f"{norm(tgt)}.options", key=f"solver-options:global:{key}")
+    ctx.ok(rule, f, None, f"no stopping criterion reaches a back-end ({n} solve call(s) / option writes inspected, module level included)", construct="solver options", key="solver-options")
+
+
 def check_formulation(ctx: Ctx, F: IlpFacts, rules: Dict[str, str], lower: float, upper: float, what: str):
     f = F.f
+    if "objective" in rules:
+        check_solver_options(ctx, F, rules["objective"])
 
     def chk(name, cond, node, good, bad, key=None):
         r = rules.get(name)
